@@ -54,6 +54,10 @@ def gen_training_program(rng, r, tier, max_total=40, eqs=None, allow_segments=Tr
     if eq == "nonstatio1" and prog["terms"]["bc"] == "neumann":
         prog["terms"]["bc"] = "dirichlet"  # 1-D space-time Neumann raises on the pinned tree: outside the supported space
     prog["weights"] = {k: rng.choice([1.0, 1.0, 0.5, 2.0]) for k in ("dyn", "ic", "bc", "norm", "obs")}
+    if eq == "sysode" and rng.random() < 0.6:
+        # per-equation weights given as a dict whose insertion order differs from the equations' order
+        prog["weights_dict"] = {"e1": rng.choice([0.5, 1.0, 2.0]), "e2": rng.choice([0.25, 1.5, 3.0]),
+                                "order": rng.choice([["e1", "e2"], ["e2", "e1"], ["e2", "e1"]])}
     prog["dkeys"] = "both" if (eq != "sysode" and rng.random() < 0.5) else "default"
     okind = rng.choice(["sgd", "momentum", "adam", "adamw", "chain"])
     lr = {"sgd": 2e-2, "momentum": 1e-2, "adam": 5e-3, "adamw": 5e-3, "chain": 5e-3}[okind] * rng.choice([0.5, 1.0, 2.0])
